@@ -3,7 +3,7 @@ captures the frames a peer would receive (C13: header.version).
 
     python defs_client_worker.py < cases.json > results.json      (PYTHONPATH=/repo/src)
 
-case: {"files": {rel: text}, "root": rel, "messages": [name...], "signals": [name...]}
+case: {"files": {rel: text}, "root": rel, "messages": [name...], "signals": [name...], "undefined_ids": [int...]}
 result: {"ok": bool, "err": str, "frames": [{"path": "send_message"|"send_signal"|"forward_message",
           "name":..., "type_hash": int, "parser_hash": str, "version": int, "msg_type": int, "nbytes": int}]}
 
@@ -100,6 +100,11 @@ def run_case(k: int, case: dict) -> dict:
                 grab("send_message", nm, cls.type_hash)
                 c.send_signal(getattr(mod, "MT_" + nm))
                 grab("send_signal", nm, cls.type_hash)
+            for mt in case.get("undefined_ids", []):      # no definition registered under this id
+                c.send_signal(mt)
+                f = HDR.unpack(recv_exact(b, HDR.size))
+                res["frames"].append(dict(path="send_signal:undefined-type", name=str(mt), type_hash=0, parser_hash="0" * 64,
+                                          version=f[11], msg_type=f[0], nbytes=f[8]))
         a.close()
         b.close()
         res["ok"] = True
